@@ -110,6 +110,8 @@ class ModuleReader(Reader):
         structure = "<" + "i" * link_count
         slots = self.object.in_link_slots
         slots.extend(unpack(structure, data))
+        # Slots of trailing links that process_SLNK dropped go away with them.
+        del slots[len(self.object.in_links) :]
         while slots[-1:] == [-1]:
             slots.pop()
 
